@@ -204,6 +204,15 @@ func init() {
 		m.cur.notes = append(m.cur.notes, key+"="+strings.Join(parts, ","))
 		return nil
 	})
+	reg(nd+"Goroutines", func(m *Machine, fr *frame, a []Value) Value {
+		n := 0
+		for _, g := range m.gs {
+			if !g.done && g != m.curG {
+				n++
+			}
+		}
+		return Int{C: uint64(n)}
+	})
 	reg(nd+"Recover", func(m *Machine, fr *frame, a []Value) Value { return nil })
 	reg(nd+"Register", func(m *Machine, fr *frame, a []Value) Value { return nil })
 
